@@ -93,6 +93,9 @@ def adversarial(rng, doc):
         "empty-argument-set": "rule x { let e = %s[ this == 'none-such' ]\n let s = substring(%s, %%e, %%e)\n %%s exists\n let j = join(%s, %%e)\n %%j exists\n let r = regex_replace(%s, %%e, %%e)\n %%r exists }" % (k, k, k, k),
         "unresolved-argument": "rule x { let s = substring(%s, zz.y, 3)\n %%s exists }" % k,
         "huge-index": "rule x { %s[2147483647] exists\n %s[-2147483648] exists\n %s.2147483648 exists }" % (k, k, k),
+        # an index right after an interpolated key (`a.%keys[n]` picks the n-th key name)
+        "index-after-interpolated-key": ("let kk = [\"a\", \"b\", \"Resources\"]\nrule x {\n this.%%kk[-2147483648] exists or %s exists\n}\nrule y {\n this.%%kk[2147483647] !exists\n this.%%kk[-1] exists or this.%%kk[0] exists\n}\n"
+                                         "rule z {\n this.%%kk[3] exists or this.%%kk[-3] exists\n}") % k,
         "self-recursive": "rule x {\n x\n}",
         "mutually-recursive": "rule x {\n y\n}\nrule y when x {\n %s exists\n}" % k,
         "recursive-via-when": "rule x when x {\n %s exists\n}" % k,
